@@ -7,6 +7,9 @@
 #include "common/decode.h"
 
 extern "C" {
+#include <soundswallower/config_defs.h>
+#include <soundswallower/fe.h>
+#include <soundswallower/ckd_alloc.h>
 #include <soundswallower/bin_mdef.h>
 #include <soundswallower/hmm.h>
 #include <soundswallower/tmat.h>
@@ -14,6 +17,7 @@ int16 const *__real_acmod_score(acmod_t *acmod, int *inout_frame_idx);
 }
 
 #include <climits>
+#include <cmath>
 #include <cstring>
 #include <map>
 
@@ -21,12 +25,60 @@ using namespace pbt;
 using namespace dec;
 
 namespace {
+bool gInspect = false;
+std::string gInspectProblem, gInspectKey;
+long gInspected = 0;
+void inspectFrame(acmod_t *acmod, int16 const *scr, int frame) {
+  if (!gInspectProblem.empty()) return;
+  ++gInspected;
+  int fi = frame;
+  mfcc_t **feat = acmod_get_frame(acmod, &fi);
+  if (feat) {
+    int nstream = feat_dimension1(acmod->fcb);
+    for (int i = 0; i < nstream; ++i)
+      for (unsigned j = 0; j < feat_dimension2(acmod->fcb, i); ++j)
+        if (!std::isfinite(feat[i][j])) {
+          gInspectKey = "non-finite-feature";
+          gInspectProblem = "frame " + std::to_string(frame) + ": feature stream " + std::to_string(i) + " component " + std::to_string(j) + " is " + std::to_string(feat[i][j]);
+          return;
+        }
+  }
+  int n = bin_mdef_n_sen(acmod->mdef);
+  int best = INT_MAX;
+  if (acmod->compallsen) {
+    for (int i = 0; i < n; ++i) {
+      if (scr[i] < 0) {
+        gInspectKey = "senone-score-out-of-range";
+        gInspectProblem = "frame " + std::to_string(frame) + ": senone " + std::to_string(i) + " scores " + std::to_string(scr[i]);
+        return;
+      }
+      best = std::min(best, (int)scr[i]);
+    }
+  } else {
+    int sen = 0;
+    for (int i = 0; i < acmod->n_senone_active; ++i) {
+      sen += acmod->senone_active[i];
+      if (scr[sen] < 0) {
+        gInspectKey = "senone-score-out-of-range";
+        gInspectProblem = "frame " + std::to_string(frame) + ": active senone " + std::to_string(sen) + " scores " + std::to_string(scr[sen]);
+        return;
+      }
+      best = std::min(best, (int)scr[sen]);
+    }
+    if (acmod->n_senone_active == 0) best = 0;
+  }
+  if (best != 0) {
+    gInspectKey = "best-senone-score-not-zero";
+    gInspectProblem = "frame " + std::to_string(frame) + ": best senone score is " + std::to_string(best) + ", not normalised to 0";
+  }
+}
 bool gCapture = false;
 std::map<int, std::vector<int16>> gScores; // frame -> senone scores (first pass)
 } // namespace
 
 extern "C" int16 const *__wrap_acmod_score(acmod_t *acmod, int *inout_frame_idx) {
   int16 const *r = __real_acmod_score(acmod, inout_frame_idx);
+  if (gInspect && r && inout_frame_idx) inspectFrame(acmod, r, *inout_frame_idx);
   if (gCapture && r && inout_frame_idx) {
     int n = bin_mdef_n_sen(acmod->mdef);
     gScores[*inout_frame_idx] = std::vector<int16>(r, r + n);
@@ -523,12 +575,279 @@ Verdict propC02(Choices &c, Ctx &ctx) {
   return Verdict::pass();
 }
 
+
+// ------------------------------------- C18: finite features, in-range scores
+decoder_t *gDecPlain = nullptr; // compallsen = no
+
+std::vector<int16_t> adversarial(Choices &c, size_t n, std::string &desc, bool &useFloat, float &fscale) {
+  std::vector<int16_t> v(n);
+  useFloat = false;
+  fscale = 1.0f;
+  size_t fam = c.weighted({3, 3, 3, 2, 2, 3, 2, 3, 2, 2});
+  audio::Lcg g((uint64_t)c.range(0, 1 << 20));
+  switch (fam) {
+  case 0: desc = "digital-silence"; break;
+  case 1: {
+    static const int dc[] = {32767, -32768, 1, -1};
+    int x = dc[c.range(0, 3)];
+    for (auto &s : v) s = (int16_t)x;
+    desc = "dc(" + std::to_string(x) + ")";
+    break;
+  }
+  case 2: {
+    int period = (int)(int[]){2, 4, 16, 160, 410, 2000}[c.range(0, 5)];
+    for (size_t i = 0; i < n; ++i) v[i] = ((i % (size_t)period) < (size_t)period / 2) ? 32767 : -32768;
+    desc = "full-scale-square(period=" + std::to_string(period) + ")";
+    break;
+  }
+  case 3:
+    if (n) v[(size_t)c.range(0, (int64_t)n - 1)] = (int16_t)(c.coin(50) ? 32767 : -32768);
+    desc = "single-impulse";
+    break;
+  case 4: {
+    int period = (int)c.range(1, 4000);
+    for (size_t i = 0; i < n; i += (size_t)period) v[i] = 32767;
+    desc = "impulse-train(period=" + std::to_string(period) + ")";
+    break;
+  }
+  case 5: {
+    int lev = c.coin(50) ? 1 : 32767;
+    for (size_t i = 0; i < n; ++i) v[i] = (int16_t)((long)(g.next() % (2 * (uint32_t)lev + 1)) - lev);
+    desc = "white-noise(level=" + std::to_string(lev) + ")";
+    break;
+  }
+  case 6: {
+    const auto &src = audio::goforward();
+    int mode = (int)c.range(0, 1);
+    for (size_t i = 0; i < n; ++i) {
+      long x = src[i % src.size()];
+      v[i] = mode == 0 ? 0 : audio::sat(x * 50);
+    }
+    desc = mode == 0 ? "speech-times-zero" : "speech-clipped(x50)";
+    break;
+  }
+  case 7: {
+    int block = (int)c.range(100, 8000);
+    for (size_t i = 0; i < n; ++i) v[i] = ((i / (size_t)block) & 1) ? (int16_t)((long)(g.next() % 65535) - 32767) : 0;
+    desc = "silence/full-scale-noise(block=" + std::to_string(block) + ")";
+    break;
+  }
+  case 8: {
+    useFloat = true;
+    fscale = (float[]){1.0f, 4.0f, 1e-6f, 100.0f}[c.range(0, 3)];
+    for (size_t i = 0; i < n; ++i) v[i] = (i & 1) ? 32767 : -32768;
+    desc = "float32-alternating(+-" + std::to_string(fscale) + ")";
+    break;
+  }
+  default: {
+    const auto &src = audio::goforward();
+    size_t off = (size_t)c.range(0, 20000);
+    for (size_t i = 0; i < n; ++i) v[i] = src[(off + i) % src.size()];
+    desc = "speech(off=" + std::to_string(off) + ")";
+    break;
+  }
+  }
+  return v;
+}
+
+Verdict cmnFixpoint(decoder_t *d, const char *when) {
+  for (int upd = 0; upd < 2; ++upd) {
+    const char *g = decoder_get_cmn(d, upd);
+    PBT_CHECK(g != NULL, "cmn-text", when << ": decoder_get_cmn returned NULL");
+    std::string g1 = g;
+    // every field parses as a finite number
+    std::istringstream is(g1);
+    std::string tok;
+    int nval = 0;
+    while (std::getline(is, tok, ',')) {
+      char *end = nullptr;
+      double x = strtod(tok.c_str(), &end);
+      PBT_CHECK(end != tok.c_str() && *end == '\0' && std::isfinite(x), "cmn-state-not-finite", when << ": channel-normalisation text '" << g1 << "' has the field '" << tok << "'");
+      ++nval;
+    }
+    PBT_CHECK(nval == 13, "cmn-text", when << ": " << nval << " values in '" << g1 << "'");
+    PBT_CHECK(decoder_set_cmn(d, g1.c_str()) == 0, "cmn-text", when << ": set_cmn refused the exported text");
+    std::string g2 = decoder_get_cmn(d, 0);
+    PBT_CHECK(g1 == g2, "cmn-text-not-fixpoint", when << ": exported '" << g1 << "', re-imported and exported again '" << g2 << "'");
+  }
+  return Verdict::pass();
+}
+
+Verdict propC18(Choices &c, Ctx &ctx) {
+  size_t family = c.weighted({4, 6});
+  if (family == 0) {
+    // ---- front end alone ----
+    static const config_param_t fe_args[] = {FE_OPTIONS, {NULL, 0, NULL, NULL}};
+    config_t *cfg = config_init(fe_args);
+    static const int rates[] = {16000, 8000, 11025, 22050, 44100, 32000, 48000};
+    int sr = rates[c.weighted({8, 3, 2, 2, 2, 2, 2})];
+    int frate = (int[]){100, 50, 125, 200}[c.weighted({6, 2, 2, 2})];
+    double wlen = (double[]){0.025625, 0.02, 0.032, 0.016}[c.weighted({5, 2, 2, 2})];
+    config_set_int(cfg, "samprate", sr);
+    config_set_int(cfg, "frate", frate);
+    config_set_float(cfg, "wlen", wlen);
+    const char *tr = (const char *[]){"legacy", "dct", "htk"}[c.weighted({3, 2, 1})];
+    config_set_str(cfg, "transform", tr);
+    bool rn = c.coin(50), rdc = c.coin(30), logspec = c.coin(12), smooth = !logspec && c.coin(10);
+    config_set_bool(cfg, "remove_noise", rn);
+    config_set_bool(cfg, "remove_dc", rdc);
+    config_set_bool(cfg, "logspec", logspec);
+    config_set_bool(cfg, "smoothspec", smooth);
+    config_set_int(cfg, "lifter", c.coin(30) ? 22 : 0);
+    int nfilt = 40;
+    double lowerf = 133.33334, upperf = 6855.4976;
+    size_t bank = c.weighted({4, 3, 3});
+    if (sr < 16000 || bank == 1) {
+      upperf = sr == 8000 ? 3500 : sr == 11025 ? 5000 : 3700;
+      lowerf = 130;
+      nfilt = (int)c.range(20, 31);
+    } else if (bank == 2) {
+      nfilt = (int)c.range(20, 40);
+      upperf = sr >= 22050 ? (double)c.range(6000, 10000) : 6855.4976;
+    }
+    config_set_int(cfg, "nfilt", nfilt);
+    config_set_float(cfg, "lowerf", lowerf);
+    config_set_float(cfg, "upperf", upperf);
+    config_set_float(cfg, "alpha", (double[]){0.97, 0.0}[c.weighted({4, 1})]);
+    config_set_str(cfg, "input_endian", "little");
+    // the filterbank needs at least one FFT bin between the rounded edges of every filter:
+    // the lowest filters are the narrowest; their width in Hz vs the bin width decides
+    long size = (long)((float)wlen * (float)sr + 0.5);
+    int nfft = 1;
+    while (nfft < size) nfft <<= 1;
+    bool forceBig = c.coin(70);
+    if (forceBig)
+      while ((double)sr / nfft > 16.0) nfft <<= 1; // generous resolution: no degenerate filter
+    if (nfft > 16384) nfft = 16384;
+    config_set_int(cfg, "nfft", nfft);
+    size_t N = (size_t)c.range(1, 30000);
+    std::string sdesc;
+    bool useFloat;
+    float fscale;
+    std::vector<int16_t> sig = adversarial(c, N, sdesc, useFloat, fscale);
+    std::ostringstream d;
+    d << "fe-only sr=" << sr << " frate=" << frate << " wlen=" << wlen << " nfft=" << nfft << " nfilt=" << nfilt << " lowerf=" << lowerf << " upperf=" << upperf << " transform=" << tr << (rn ? " remove_noise" : "") << (rdc ? " remove_dc" : "") << (logspec ? " logspec" : "") << (smooth ? " smoothspec" : "") << " | N=" << N << " " << sdesc;
+    ctx.describe(d.str());
+    fe_t *fe = fe_init(cfg);
+    config_free(cfg);
+    if (!fe) {
+      ctx.label("fe:init-refused");
+      return Verdict::pass();
+    }
+    int dim = fe_get_output_size(fe);
+    int maxfr = (int)(N / 40) + 8;
+    mfcc_t **buf = (mfcc_t **)ckd_calloc_2d(maxfr, dim, sizeof(mfcc_t));
+    int nfr = 0;
+    fe_start(fe);
+    if (useFloat) {
+      std::vector<float> f(N);
+      for (size_t i = 0; i < N; ++i) f[i] = (float)sig[i] / 32768.0f * fscale;
+      float *p = f.data();
+      size_t ns = N;
+      nfr = fe_process_float32(fe, &p, &ns, buf, maxfr - 1);
+    } else {
+      int16 *p = sig.data();
+      size_t ns = N;
+      nfr = fe_process_int16(fe, &p, &ns, buf, maxfr - 1);
+    }
+    if (nfr >= 0) nfr += fe_end(fe, buf + nfr, maxfr - nfr);
+    Verdict res;
+    for (int i = 0; i < nfr && res.ok; ++i)
+      for (int j = 0; j < dim; ++j)
+        if (!std::isfinite(buf[i][j])) {
+          res = Verdict::fail(forceBig ? "fe-non-finite" : "fe-non-finite:coarse-fft", Msg() << "frame " << i << " coefficient " << j << " is " << buf[i][j] << " (" << nfr << " frames)");
+          break;
+        }
+    ckd_free_2d(buf);
+    fe_free(fe);
+    ctx.label("family:fe-only");
+    ctx.label("signal:" + sdesc.substr(0, sdesc.find('(')));
+    ctx.nontrivial = nfr >= 3;
+    return res;
+  }
+  // ---- through the decoder ----
+  decoder_t *d = c.coin(50) ? gDec : gDecPlain;
+  bool fullUtt = c.coin(30);
+  size_t N;
+  long tier = getenv("VERIF_TIER") && !strcmp(getenv("VERIF_TIER"), "thorough");
+  switch (c.weighted({3, 6, tier ? 2 : 0})) {
+  case 0: N = (size_t)c.range(1, 4000); break;
+  case 1: N = (size_t)c.range(4000, 48000); break;
+  default: N = (size_t)c.range(480000, 2880000); break; // 30 s - 3 min
+  }
+  std::string sdesc;
+  bool useFloat;
+  float fscale;
+  std::vector<int16_t> sig = adversarial(c, N, sdesc, useFloat, fscale);
+  // a grammar the path cannot escape from: forced alignment of a repeated text, or a word loop
+  std::string text;
+  int nw = (int)c.range(1, 6);
+  for (int i = 0; i < nw; ++i) text += (i ? " " : "") + vocab()[(size_t)c.range(0, 7)];
+  SearchCfg sc = genSearchCfg(c);
+  std::string cmninit;
+  if (c.coin(25)) {
+    double mag = (double[]){1e3, 1e6, 1e12, 1e30}[c.range(0, 3)];
+    std::ostringstream o;
+    o << (c.coin(50) ? mag : -mag) << "," << mag / 3 << ",-" << mag / 7;
+    cmninit = o.str();
+  }
+  std::ostringstream ds;
+  ds << "decoder(" << (d == gDec ? "compallsen" : "default") << ") " << sc.str() << (fullUtt ? " full_utt" : " streaming") << (cmninit.empty() ? "" : " set_cmn=" + cmninit) << " | align '" << text << "' | N=" << N << " " << sdesc;
+  ctx.describe(ds.str());
+  applySearchCfg(d, sc);
+  PBT_CHECK(decoder_set_align_text(d, text.c_str()) == 0, "install-refused", "align text refused");
+  if (!cmninit.empty()) PBT_CHECK(decoder_set_cmn(d, cmninit.c_str()) == 0, "cmn-text", "set_cmn refused " << cmninit);
+  gInspect = true;
+  gInspectProblem.clear();
+  gInspected = 0;
+  PBT_CHECK(decoder_start_utt(d) == 0, "start-utt-failed", "start_utt failed");
+  size_t pos = 0;
+  while (pos < N) {
+    size_t len = fullUtt ? N : std::min<size_t>(N - pos, (size_t)c.range(1000, 20000));
+    int r;
+    if (useFloat) {
+      std::vector<float> f(len);
+      for (size_t i = 0; i < len; ++i) f[i] = (float)sig[pos + i] / 32768.0f * fscale;
+      r = decoder_process_float32(d, f.data(), len, 0, fullUtt);
+    } else {
+      std::vector<int16_t> b(sig.begin() + (long)pos, sig.begin() + (long)(pos + len));
+      r = decoder_process_int16(d, b.data(), len, 0, fullUtt);
+    }
+    PBT_CHECK(r >= 0, "process-error", "process returned " << r);
+    pos += len;
+  }
+  PBT_CHECK(decoder_end_utt(d) == 0, "end-utt-failed", "end_utt failed");
+  gInspect = false;
+  if (!gInspectProblem.empty()) return Verdict::fail(gInspectKey, gInspectProblem);
+  Obs o = observe(d);
+  if (o.hasSeg) {
+    long total = 0;
+    for (auto &s : o.segs) {
+      long x = (long)s.ascr + s.lscr;
+      PBT_CHECK(x <= 0, "positive-segment-score", "segment " << s.word << " scores " << x << " in " << o.str());
+      total += x;
+    }
+    PBT_CHECK(total <= 0 && total >= (long)WORST_SCORE, "path-score-out-of-range", "path score " << total << " outside [WORST_SCORE, 0]");
+    if (o.hasHyp) PBT_CHECK((long)o.score == total, "path-score-wrapped", "hyp score " << o.score << " vs sum of segment scores " << total);
+  }
+  Verdict v = cmnFixpoint(d, "after the utterance");
+  if (!v.ok) return v;
+  ctx.label("family:decoder");
+  ctx.label("signal:" + sdesc.substr(0, sdesc.find('(')));
+  ctx.labelIf(N >= 480000, "length:>=30s");
+  ctx.labelIf(!cmninit.empty(), "cmninit:large-magnitude");
+  ctx.nontrivial = gInspected >= 10;
+  return Verdict::pass();
+}
+
 void initViterbi() {
   err_set_loglevel(ERR_FATAL);
   DecCfg b;
   b.compallsen = true;
   gDec = makeDecoder(b);
-  if (!gDec) {
+  DecCfg pl;
+  gDecPlain = makeDecoder(pl);
+  if (!gDec || !gDecPlain) {
     fprintf(stderr, "decoder_init failed\n");
     exit(2);
   }
@@ -541,6 +860,7 @@ void initViterbi() {
 namespace pbt {
 const PropDef kProps[] = {
     {"C02", propC02, true, 60000, initViterbi},
+    {"C18", propC18, true, 240000, initViterbi},
     {nullptr, nullptr, false, 0, nullptr},
 };
 }
